@@ -34,6 +34,11 @@ def toCfg (d : Def) (secret : Bytes) (orc : Nat → Priv.Orders) : Priv.Cfg wher
     | none => false
   orc := orc
 
+/-- the same scenario with a device on which no secret is set: it lets the client into an
+authenticated level without asking, whatever secondary secret the client has configured -/
+def toCfgNoAsk (d : Def) (secret : Bytes) (orc : Nat → Priv.Orders) : Priv.Cfg :=
+  { toCfg d secret orc with asks := fun _ => false }
+
 def idOrders : Priv.Orders := { nbr := fun _ l => l, lv := fun l => l }
 def revOrders : Priv.Orders := { nbr := fun _ l => l.reverse, lv := fun l => l.reverse }
 
